@@ -6,6 +6,7 @@ import (
 	"fmt"
 	"go/token"
 	"go/types"
+	"math"
 )
 
 // sym is a symbolic scalar of basic kind k (bool or an integer kind).
@@ -54,6 +55,10 @@ func kindWidth(k types.BasicKind) (w int, signed bool) {
 		return 32, false
 	case types.Uint, types.Uint64, types.Uintptr:
 		return 64, false
+	case types.Float32:
+		return 32, false
+	case types.Float64, types.UntypedFloat:
+		return 64, false
 	}
 	panic(pathTruncated{fmt.Sprintf("unsupported symbolic kind %v", k)})
 }
@@ -86,6 +91,10 @@ func kindOf(v value) types.BasicKind {
 		return types.Uint64
 	case uintptr:
 		return types.Uintptr
+	case float32:
+		return types.Float32
+	case float64:
+		return types.Float64
 	}
 	panic(pathTruncated{fmt.Sprintf("unsupported: symbolic operation with operand of type %T", v)})
 }
@@ -98,12 +107,48 @@ func toTerm(v value) *Term {
 	case bool:
 		return boolConst(v)
 	}
+	switch f := v.(type) {
+	case float32:
+		return bvConst(uint64(math.Float32bits(f)), 32)
+	case float64:
+		return bvConst(math.Float64bits(f), 64)
+	}
 	k := kindOf(v)
 	w, signed := kindWidth(k)
 	if signed {
 		return bvConst(uint64(asInt64(v)), w)
 	}
 	return bvConst(asUint64(v), w)
+}
+
+func isFloatKind(k types.BasicKind) bool {
+	return k == types.Float32 || k == types.Float64 || k == types.UntypedFloat
+}
+
+// fpBinop: comparisons of IEEE floats (held as their bit patterns); arithmetic
+// on symbolic floats is outside the encoding (truncated path).
+func fpBinop(op token.Token, k types.BasicKind, x, y value) value {
+	w, _ := kindWidth(k)
+	a, b := toTerm(x), toTerm(y)
+	if a.w != w || b.w != w {
+		panic(pathTruncated{"unsupported: float binop on mixed widths"})
+	}
+	mk := func(o string, p, q *Term) *Term { return tOp(o, 0, w, p, q) }
+	switch op {
+	case token.EQL:
+		return fromTerm(types.Bool, mk("fp.eq", a, b))
+	case token.NEQ:
+		return fromTerm(types.Bool, tNot(mk("fp.eq", a, b)))
+	case token.LSS:
+		return fromTerm(types.Bool, mk("fp.lt", a, b))
+	case token.LEQ:
+		return fromTerm(types.Bool, mk("fp.leq", a, b))
+	case token.GTR:
+		return fromTerm(types.Bool, mk("fp.lt", b, a))
+	case token.GEQ:
+		return fromTerm(types.Bool, mk("fp.leq", b, a))
+	}
+	panic(pathTruncated{"unsupported: arithmetic on symbolic floating-point values (" + op.String() + ")"})
 }
 
 // fromTerm lowers a term to a concrete Go value when constant.
@@ -136,6 +181,10 @@ func fromTerm(k types.BasicKind, t *Term) value {
 		return t.c
 	case types.Uintptr:
 		return uintptr(t.c)
+	case types.Float32:
+		return math.Float32frombits(uint32(t.c))
+	case types.Float64, types.UntypedFloat:
+		return math.Float64frombits(t.c)
 	}
 	panic("fromTerm")
 }
@@ -188,6 +237,9 @@ func symBinop(op token.Token, t types.Type, x, y value) value {
 		if _, ok := y.(sym); ok && (op != token.SHL && op != token.SHR) {
 			k = kindOf(y)
 		}
+	}
+	if isFloatKind(k) {
+		return fpBinop(op, k, x, y)
 	}
 	w, signed := kindWidth(k)
 	a := toTerm(x)
@@ -417,6 +469,23 @@ func containsSym(v value) bool {
 
 func symConv(dst types.BasicKind, x sym) value {
 	sw, ssigned := kindWidth(x.k)
+	if isFloatKind(x.k) {
+		if isFloatKind(dst) {
+			dw, _ := kindWidth(dst)
+			if dw == sw {
+				return fromTerm(dst, x.t)
+			}
+			return fromTerm(dst, tOp("f2f", dw, sw, x.t))
+		}
+		panic(pathTruncated{"unsupported: conversion of a symbolic float to " + types.Typ[dst].String()})
+	}
+	if isFloatKind(dst) && sw > 0 {
+		dw, _ := kindWidth(dst)
+		if ssigned {
+			return fromTerm(dst, tOp("s2f", dw, sw, x.t))
+		}
+		return fromTerm(dst, tOp("u2f", dw, sw, x.t))
+	}
 	switch dst {
 	case types.Float32, types.Float64, types.Complex64, types.Complex128, types.String, types.UnsafePointer:
 		// fork over the values (only sensible for narrowly constrained terms)
